@@ -11,7 +11,7 @@
  * the command line.
  *
  * usage: crash_driver <op>...        op = <T>:<what>   T in A,B (tid 101, 102)
- *   pinit | pfini | init | x | e | ev<k> | j<n> | f | af | as | free
+ *   pinit | pfini | init | x | e | ev<k> | j<n> | f | af | as | abig | free
  * (the main thread issues no runtime call, so every runtime syscall belongs to a worker)
  */
 #define _GNU_SOURCE
@@ -50,8 +50,8 @@ clock_gettime(clockid_t id, struct timespec *tp)
 /* VERIF_SHORTWRITE=k:how  -- the k-th write() of more than one byte to a regular descriptor completes only partly
  * (how: 1 = one byte, 2 = half, 3 = all but one byte), as POSIX allows; a sentinel syscall marks that it happened */
 #include <sys/syscall.h>
-ssize_t
-write(int fd, const void *b, size_t n)
+static size_t
+maybe_short(int fd, size_t n)
 {
 	static int cnt, k = -1, how;
 	if (k < 0) {
@@ -64,7 +64,34 @@ write(int fd, const void *b, size_t n)
 		n = how == 1 ? 1 : (how == 2 ? n / 2 : n - 1);
 		syscall(SYS_write, -1, "VERIF-SHORT", 11);
 	}
-	return (ssize_t) syscall(SYS_write, fd, b, n);
+	return n;
+}
+
+ssize_t
+write(int fd, const void *b, size_t n)
+{
+	return (ssize_t) syscall(SYS_write, fd, b, maybe_short(fd, n));
+}
+
+/* the same for a vectored write, should the runtime ever use one */
+#include <sys/uio.h>
+ssize_t
+writev(int fd, const struct iovec *iov, int cnt)
+{
+	size_t tot = 0;
+	for (int i = 0; i < cnt; i++)
+		tot += iov[i].iov_len;
+	size_t left = maybe_short(fd, tot);
+	struct iovec v[16];
+	int m = 0;
+	for (int i = 0; i < cnt && left > 0 && m < 16; i++) {
+		v[m] = iov[i];
+		if (v[m].iov_len > left)
+			v[m].iov_len = left;
+		left -= v[m].iov_len;
+		m++;
+	}
+	return (ssize_t) syscall(SYS_writev, fd, v, m);
 }
 
 /* readdir in a chosen order */
@@ -189,6 +216,11 @@ do_op(struct worker *w, const char *op)
 		ovni_flush();
 	} else if (strcmp(op, "af") == 0) {
 		ovni_attr_flush();
+	} else if (strcmp(op, "abig") == 0) {
+		/* metadata larger than a stdio buffer: the JSON is written in several chunks */
+		static char big[6001];
+		memset(big, 'm', sizeof(big) - 1);
+		ovni_attr_set_str("verif.big", big);
 	} else if (strcmp(op, "as") == 0) {
 		ovni_attr_set_double("verif.counter", (double) w->seq);
 	} else if (strcmp(op, "free") == 0) {
